@@ -72,7 +72,10 @@ func runC18(c *core.Ctx) {
 				{"local revision > incoming", ssax.AndEdges(nonEmpty, ssax.RelEdge(localTS, inTS, +1)), false},
 				{"local revision = incoming, same delete time", ssax.AndEdges(nonEmpty, ssax.RelEdge(localTS, inTS, 0), ssax.RelEdge(localDel, inDel, 0)), false},
 				{"local revision < incoming", ssax.AndEdges(nonEmpty, ssax.RelEdge(localTS, inTS, -1)), true},
-				{"local revision = incoming, different delete time", ssax.AndEdges(nonEmpty, ssax.RelEdge(localTS, inTS, 0), ssax.RelEdge(localDel, inDel, +1)), true},
+				// a delete keeps the revision and only sets a delete time: at equal revisions the LATER delete time wins
+				// (a live copy counts as 0), so a stale live copy never undoes a delete
+				{"local revision = incoming, local delete time later", ssax.AndEdges(nonEmpty, ssax.RelEdge(localTS, inTS, 0), ssax.RelEdge(localDel, inDel, +1)), false},
+				{"local revision = incoming, incoming delete time later", ssax.AndEdges(nonEmpty, ssax.RelEdge(localTS, inTS, 0), ssax.RelEdge(localDel, inDel, -1)), true},
 				{"local revision < incoming, different delete time", ssax.AndEdges(nonEmpty, ssax.RelEdge(localTS, inTS, -1), ssax.RelEdge(localDel, inDel, +1)), true},
 				{"local revision > incoming, different delete time", ssax.AndEdges(nonEmpty, ssax.RelEdge(localTS, inTS, +1), ssax.RelEdge(localDel, inDel, +1)), false},
 			}
